@@ -46,7 +46,8 @@ class RequirementsTxtParser(BaseParser):
         that may be comments or may be pointers to other requirement files (-r ..._
         """
         return set(
-            line.split("#")[0].strip()
+            # a trailing backslash continues the requirement (--hash options) on the next line
+            line.split("#")[0].strip().rstrip("\\").strip()
             for line in lines
             if not line.startswith(("#", "-r "))
         )
